@@ -2,6 +2,6 @@
 EXTENDS LdpcIt
 P(k, r, n1, s) == [k |-> k, r |-> r, N1 |-> n1, seed |-> s]
 PointsQuick == { P(4,3,3,1), P(5,4,3,2), P(6,4,4,1), P(3,5,3,7), P(1,3,3,1), P(6,3,3,3) }
-\* every state costs ~0.15 s (eight invariants, each a closure or a whole-table comparison): points up to n = 12
-PointsThorough == PointsQuick \cup { P(2,3,3,5), P(5,5,4,9), P(6,6,3,11), P(7,4,4,3), P(5,5,5,9), P(4,8,4,5) }
+\* every state costs ~0.15 s (eight invariants, each a closure or a whole-table comparison): points up to n = 11
+PointsThorough == PointsQuick \cup { P(2,3,3,5), P(5,5,4,9), P(7,4,4,3), P(5,5,5,9), P(3,7,4,5) }
 =============================================================================
